@@ -420,6 +420,23 @@ def write_mask_baseline():
     return sum(len(v) for v in allm.values())
 
 
+def run_w7(chk):
+    """a length that a `cmp len, K; jb/jbe L` has just bounded has a constant above the bound subtracted from it at L: the unsigned remainder
+    wraps, and the partial load / store sized by it covers far more than is left (decides K20)"""
+    from .. import insnscan
+    r = chk.rule('W7', 'at a label reached only by `cmp r, K; jb/jbe` no `sub r, C` with C above the bound follows while r is unchanged: the '
+                       'remaining length cannot wrap below zero', floor=500)
+    for rel, v in sorted(insnscan.len_underflows().items()):
+        for f in v['findings']:
+            r.bad('%s:%s+%#x' % (rel, f['fn'], f['a']), rel,
+                  '%s (%s): after `%s` the register is at most %d, yet `%s` at +%#x subtracts %d: the remaining length wraps to a huge value and '
+                  'the partial load / store sized by it reads or writes beyond the buffer' % (
+                      f['fn'], rel, ' '.join(f['cmp'].split()), f['bound'], ' '.join(f['txt'].split()), f['a'], f['sub']))
+        for i in range(v['sites'] - len(v['findings'])):
+            r.ok('%s#%d' % (rel, i))
+    return r
+
+
 def run(chk):
     P = cf.Program()
     M = build.macros()
@@ -471,6 +488,7 @@ def run(chk):
     from . import padding
     padding.rule_digest_words(chk, P, 'P5')
     run_w4(chk)
+    run_w7(chk)
 
 
 if __name__ == '__main__':
